@@ -20,7 +20,7 @@ class SchedulerError(Exception):
 
 
 class Run:
-    def __init__(self, n, schedule, prefix, opcode=False, max_steps=200000):
+    def __init__(self, n, schedule, prefix, opcode=False, max_steps=2000000, loc_points=(), record_locs=False):
         self.n = n
         self.events = [threading.Event() for _ in range(n)]
         self.alive = [True] * n
@@ -37,6 +37,12 @@ class Run:
         self.inside = [False] * n   # thread has entered library code and not finished
         self.outcomes = [None] * n
         self.error = None
+        # location-based preemption points: (thread, "file.py:line", occurrence) -> thread to switch to
+        self.loc_points = {(int(t), loc, int(occ)): int(to) for t, loc, occ, to in loc_points}
+        self.want_locs = bool(self.loc_points) or record_locs
+        self.loc_counts = {}
+        self.locs = [[] for _ in range(n)]      # distinct locations per thread in order of first arrival (record mode)
+        self.record_locs = record_locs
 
     # ---- called from worker threads --------------------------------------------------------------
     def _wait(self, i):
@@ -46,13 +52,22 @@ class Run:
             raise SchedulerError(self.error)
         ev.clear()
 
-    def yield_point(self, i):
+    def yield_point(self, i, loc=None):
         # only the baton holder executes this
         self.step += 1
         self.steps_of[i] += 1
         if self.step > self.max_steps:
             raise SchedulerError("step limit")
         t = self.points.get(self.step)
+        if loc is not None:
+            k = (i, loc)
+            c = self.loc_counts.get(k, 0) + 1
+            self.loc_counts[k] = c
+            if c == 1 and self.record_locs:
+                self.locs[i].append(loc)
+            t2 = self.loc_points.get((i, loc, c))
+            if t2 is not None:
+                t = t2
         if t is not None and t != i and 0 <= t < self.n and self.alive[t]:
             self.switches.append((self.step, i, t, self.inside[t] and self.inside[i]))
             self.current = t
@@ -73,10 +88,16 @@ class Run:
         opcode = self.opcode
         run = self
 
+        want_locs = self.want_locs
+        base = os.path.basename
+
         def local(frame, event, arg):
             if event == "line" or event == "opcode":
                 run.inside[i] = True
-                run.yield_point(i)
+                if want_locs:
+                    run.yield_point(i, f"{base(frame.f_code.co_filename)}:{frame.f_lineno}")
+                else:
+                    run.yield_point(i)
             return local
 
         def tracer(frame, event, arg):
@@ -88,10 +109,11 @@ class Run:
         return tracer
 
 
-def run_concurrently(calls, schedule, repo, opcode=False, timeout=60):
-    """calls: list of zero-argument callables. Returns (outcomes, info). outcome = ('ok', value) | ('exc', type name, str)."""
+def run_concurrently(calls, schedule, repo, opcode=False, timeout=120, loc_points=(), record_locs=False):
+    """calls: list of zero-argument callables. Returns (outcomes, info). outcome = ('ok', value) | ('exc', type name, str).
+    schedule: [(global step, thread)]; loc_points: [(thread, 'file.py:line', occurrence, thread to switch to)]."""
     prefix = os.path.join(os.path.abspath(repo), "schwifty") + os.sep
-    run = Run(len(calls), schedule, prefix, opcode)
+    run = Run(len(calls), schedule, prefix, opcode, loc_points=loc_points, record_locs=record_locs)
 
     def worker(i):
         try:
@@ -122,7 +144,7 @@ def run_concurrently(calls, schedule, repo, opcode=False, timeout=60):
             raise SchedulerError("worker did not finish (deadlock in scheduler or library)")
     if run.error:
         raise SchedulerError(run.error)
-    info = {"steps": run.step, "steps_of": run.steps_of, "switches": run.switches}
+    info = {"steps": run.step, "steps_of": run.steps_of, "switches": run.switches, "locs": run.locs}
     return run.outcomes, info
 
 
@@ -130,3 +152,9 @@ def run_alone(call, repo, opcode=False):
     """Outcome and step count of a call run alone under the same tracer (no preemption)."""
     out, info = run_concurrently([call], [], repo, opcode)
     return out[0], info["steps"]
+
+
+def trace_locations(call, repo):
+    """Distinct library locations ('file.py:line') a call passes, in order of first arrival, and its outcome."""
+    out, info = run_concurrently([call], [], repo, record_locs=True)
+    return out[0], info["locs"][0]
